@@ -60,7 +60,7 @@ func ackDesc(a *bool) string {
 
 func init() {
 	Register(&Scenario{
-		Prop: "C01", Name: "classifier-table",
+		Prop: "C01", Name: "classifier-table", Weight: 3,
 		NonTrivial: []string{"c01-request-checked"},
 		Build: func(w *World) {
 			d := &c01Data{static: map[string]string{}, bound: map[string]bool{}, subs: map[string]bool{}}
